@@ -105,10 +105,10 @@ class S3VersionUtil:
         if "Versions" in response:
             versions = response["Versions"]
 
-        if (
-            response["IsTruncated"]
-            and len(versions) > 0
-            and (self.start_date is None or versions[-1]["LastModified"] >= self.start_date)
+        # a page can come without any version (it holds delete markers only): that says nothing about where the
+        # window starts, so the listing goes on
+        if response["IsTruncated"] and (
+            len(versions) == 0 or self.start_date is None or versions[-1]["LastModified"] >= self.start_date
         ):
             versions += self.list_versions(
                 path,
